@@ -12,9 +12,16 @@ JudgeArr(e) ==
        THEN PrintT(<<"REJECT", e.id, l, "C16.no-fabricated-frame">>) ELSE TRUE
     /\ IF \E i \in 1..(Len(e.returned) - 1) : e.returned[i] >= e.returned[i + 1]
        THEN PrintT(<<"REJECT", e.id, l, "C16.returned-in-written-order">>) ELSE TRUE
-    /\ IF ~HasPair(e.garbage) /\ e.returned # [i \in 1..e.n |-> i]
-       THEN PrintT(<<"REJECT", e.id, l, "C16.sync-free-garbage-costs-no-frame">>) ELSE TRUE
-    /\ IF e.pred # <<>> /\ ~(\E i \in 1..Len(e.pred) : e.pred[i] = e.returned)
+    \* (a refill answered with Interrupted is no damage to the stream: StreamSync.SyncFreeGarbageCostsNothing holds with such answers)
+    /\ IF ~HasPair(e.garbage) /\ ~e.fault.io /\ e.returned # [i \in 1..e.n |-> i]
+       THEN PrintT(<<"REJECT", e.id, l, IF e.fault.at >= 0 THEN "C16.interrupted-refill-costs-no-frame" ELSE "C16.sync-free-garbage-costs-no-frame">>) ELSE TRUE
+    \* a transient I/O error of the source: StreamSync.ErrorsPropagated / LossesAreReported (C13's clause, gated there by the read-stream
+    \* fault scenarios; reported here as a growth note)
+    /\ IF e.fault.io /\ (e.ioerrs_reported # 1 \/ (~HasPair(e.garbage) /\ Len(e.returned) < e.n - e.ioerrs_reported))
+       THEN PrintT(<<"REJECT", e.id, l, "growth.stream-reader-loses-frames-only-to-reported-errors">>) ELSE TRUE
+    \* (the model's frames are longer than its headers: a failed header attempt cannot swallow a whole frame; real frames of one or two
+    \* samples are shorter than the longest header, so the prediction is compared only when every frame has at least 16 bytes)
+    /\ IF e.pred # <<>> /\ e.fault.at < 0 /\ e.min_frame_bytes >= 16 /\ ~(\E i \in 1..Len(e.pred) : e.pred[i] = e.returned)
        THEN PrintT(<<"DRIFT", e.id, l, "model allows", e.pred, "returned", e.returned>>) ELSE TRUE
 JudgeFrame(e) ==
     LET f == Frame(e.bytes, 0, NoSI) IN
